@@ -14,8 +14,8 @@ in particular other `MergeIterator`s, so nesting depth is unbounded.
 namespace Badger
 
 structure IterSpec {σ : Type} (ops : IterOps σ) (cmp : Bytes → Bytes → Ordering)
-    (all : List Entry) where
-  R : σ → List Entry → Prop
+    (all : List ItEntry) where
+  R : σ → List ItEntry → Prop
   sorted_all : SortedBy cmp all
   R_sorted : ∀ {s L}, R s L → SortedBy cmp L
   rewind : ∀ {s L}, R s L → R (ops.rewind s) all
@@ -34,18 +34,18 @@ theorem dcmp_true : dcmp true = fun a b => compareKeys b a := by
 theorem dcmp_false : dcmp false = compareKeys := by
   funext a b; simp [dcmp]
 
-theorem sortedBy_dirItems (items : List Entry) (rev : Bool) (hs : SortedBy compareKeys items) :
+theorem sortedBy_dirItems (items : List ItEntry) (rev : Bool) (hs : SortedBy compareKeys items) :
     SortedBy (dcmp rev) (if rev then items.reverse else items) := by
   cases rev
   · simpa [dcmp_false] using hs
   · rw [dcmp_true]; simpa using sortedBy_reverse.mpr hs
 
-theorem SortedBy.sublist {cmp : Bytes → Bytes → Ordering} {l l' : List Entry}
+theorem SortedBy.sublist {cmp : Bytes → Bytes → Ordering} {l l' : List ItEntry}
     (h : SortedBy cmp l) (hs : l'.Sublist l) : SortedBy cmp l' :=
   List.Pairwise.sublist hs h
 
 /-- A slice-backed source over a strictly sorted list is a cursor over it. -/
-def sourceSpec (items : List Entry) (rev : Bool) (hs : SortedBy compareKeys items) :
+def sourceSpec (items : List ItEntry) (rev : Bool) (hs : SortedBy compareKeys items) :
     IterSpec Source.ops (dcmp rev) (if rev then items.reverse else items) where
   R s L := s.items = items ∧ s.reverse = rev ∧ s.rest = L ∧ SortedBy (dcmp rev) L
   sorted_all := sortedBy_dirItems items rev hs
@@ -80,14 +80,14 @@ def sourceSpec (items : List Entry) (rev : Bool) (hs : SortedBy compareKeys item
 
 section Level
 variable {α β : Type} {A : IterOps α} {B : IterOps β} {cmp : Bytes → Bytes → Ordering}
-  {allA allB : List Entry}
+  {allA allB : List ItEntry}
 
 /-- the cached `valid`/`key` of a node agree with a child positioned at `L` -/
-def NodeOK {σ : Type} (n : MNode σ) (L : List Entry) : Prop :=
+def NodeOK {σ : Type} (n : MNode σ) (L : List ItEntry) : Prop :=
   n.valid = !L.isEmpty ∧ ∀ e L', L = e :: L' → n.key = e.key
 
-theorem nodeOK_setKey {σ : Type} {o : IterOps σ} {all : List Entry} (S : IterSpec o cmp all)
-    (n : MNode σ) {L : List Entry} (h : S.R n.iter L) : NodeOK (n.setKey o) L := by
+theorem nodeOK_setKey {σ : Type} {o : IterOps σ} {all : List ItEntry} (S : IterSpec o cmp all)
+    (n : MNode σ) {L : List ItEntry} (h : S.R n.iter L) : NodeOK (n.setKey o) L := by
   unfold MNode.setKey NodeOK
   cases L with
   | nil => simp [S.valid h]
@@ -96,7 +96,7 @@ theorem nodeOK_setKey {σ : Type} {o : IterOps σ} {all : List Entry} (S : IterS
 @[simp] theorem setKey_iter {σ : Type} (o : IterOps σ) (n : MNode σ) : (n.setKey o).iter = n.iter := rfl
 
 /-- `small` points to the node that comes first in iteration order; heads differ. -/
-def Fixed (cmp : Bytes → Bytes → Ordering) (sl : Bool) : List Entry → List Entry → Prop
+def Fixed (cmp : Bytes → Bytes → Ordering) (sl : Bool) : List ItEntry → List ItEntry → Prop
   | [], [] => True
   | _ :: _, [] => sl = true
   | [], _ :: _ => sl = false
@@ -104,7 +104,7 @@ def Fixed (cmp : Bytes → Bytes → Ordering) (sl : Bool) : List Entry → List
 
 /-- children positioned at `Ll`, `Lr`; node caches consistent; direction flag right -/
 structure Pre (SA : IterSpec A cmp allA) (SB : IterSpec B cmp allB) (rev : Bool)
-    (m : MergeSt α β) (Ll Lr : List Entry) : Prop where
+    (m : MergeSt α β) (Ll Lr : List ItEntry) : Prop where
   hl : SA.R m.left.iter Ll
   hr : SB.R m.right.iter Lr
   nl : NodeOK m.left Ll
@@ -112,7 +112,7 @@ structure Pre (SA : IterSpec A cmp allA) (SB : IterSpec B cmp allB) (rev : Bool)
   hrev : m.reverse = rev
 
 def MergeR (SA : IterSpec A cmp allA) (SB : IterSpec B cmp allB) (rev : Bool)
-    (m : MergeSt α β) (L : List Entry) : Prop :=
+    (m : MergeSt α β) (L : List ItEntry) : Prop :=
   ∃ Ll Lr, Pre SA SB rev m Ll Lr ∧ Fixed cmp m.smallLeft Ll Lr ∧ m.curKey = m.smallKey ∧
     L = mergeLists cmp Ll Lr
 
@@ -141,7 +141,7 @@ variable (T : TotalCmp cmp) (SA : IterSpec A cmp allA) (SB : IterSpec B cmp allB
 include T hcmp
 
 /-- `fix` re-establishes `Fixed` from any position of `small`, without changing the merge. -/
-theorem fix_spec {m : MergeSt α β} {Ll Lr : List Entry} (hp : Pre SA SB rev m Ll Lr) :
+theorem fix_spec {m : MergeSt α β} {Ll Lr : List ItEntry} (hp : Pre SA SB rev m Ll Lr) :
     ∃ Ll' Lr', Pre SA SB rev (MergeSt.fix A B m) Ll' Lr' ∧
       Fixed cmp (MergeSt.fix A B m).smallLeft Ll' Lr' ∧
       mergeLists cmp Ll' Lr' = mergeLists cmp Ll Lr ∧
@@ -220,14 +220,14 @@ theorem fix_spec {m : MergeSt α β} {Ll Lr : List Entry} (hp : Pre SA SB rev m 
           simp [Fixed, hc]
 
 omit T hcmp in
-theorem pre_of_fields {m m' : MergeSt α β} {Ll Lr : List Entry} (hp : Pre SA SB rev m Ll Lr)
+theorem pre_of_fields {m m' : MergeSt α β} {Ll Lr : List ItEntry} (hp : Pre SA SB rev m Ll Lr)
     (h1 : m'.left = m.left) (h2 : m'.right = m.right) (h3 : m'.reverse = m.reverse) :
     Pre SA SB rev m' Ll Lr :=
   ⟨h1 ▸ hp.hl, h2 ▸ hp.hr, h1 ▸ hp.nl, h2 ▸ hp.nr, h3 ▸ hp.hrev⟩
 
 omit T hcmp in
 /-- In a fixed state the `small` node shows the head of the merge. -/
-theorem small_head {m : MergeSt α β} {Ll Lr : List Entry} (hp : Pre SA SB rev m Ll Lr)
+theorem small_head {m : MergeSt α β} {Ll Lr : List ItEntry} (hp : Pre SA SB rev m Ll Lr)
     (hf : Fixed cmp m.smallLeft Ll Lr) :
     m.smallValid = !(mergeLists cmp Ll Lr).isEmpty ∧
     ∀ e L, mergeLists cmp Ll Lr = e :: L →
@@ -269,7 +269,7 @@ theorem small_head {m : MergeSt α β} {Ll Lr : List Entry} (hp : Pre SA SB rev 
 
 omit T hcmp in
 /-- `mi.small.next()` in a fixed state pops the head of the merge. -/
-theorem smallNext_pre {m : MergeSt α β} {Ll Lr : List Entry} {e : Entry} {L : List Entry}
+theorem smallNext_pre {m : MergeSt α β} {Ll Lr : List ItEntry} {e : ItEntry} {L : List ItEntry}
     (hp : Pre SA SB rev m Ll Lr) (hf : Fixed cmp m.smallLeft Ll Lr)
     (hm : mergeLists cmp Ll Lr = e :: L) :
     ∃ Ll' Lr', Pre SA SB rev (MergeSt.smallNext A B m) Ll' Lr' ∧ mergeLists cmp Ll' Lr' = L ∧
@@ -311,14 +311,14 @@ theorem nextLoop_of_not_cond {m : MergeSt α β} (h : m.loopCond = false) (n : N
   cases n <;> simp [MergeSt.nextLoop, h]
 
 omit T hcmp in
-theorem mergeR_setCurrent {m : MergeSt α β} {Ll Lr : List Entry} (hp : Pre SA SB rev m Ll Lr)
+theorem mergeR_setCurrent {m : MergeSt α β} {Ll Lr : List ItEntry} (hp : Pre SA SB rev m Ll Lr)
     (hf : Fixed cmp m.smallLeft Ll Lr) :
     MergeR SA SB rev m.setCurrent (mergeLists cmp Ll Lr) :=
   ⟨Ll, Lr, pre_of_fields SA SB rev hp rfl rfl rfl, hf, rfl, rfl⟩
 
 /-- One call of `Next` in a positioned state: the loop body runs exactly once and the loop
     is left through its own condition. -/
-theorem nextLoop_cons {m : MergeSt α β} {e : Entry} {L : List Entry}
+theorem nextLoop_cons {m : MergeSt α β} {e : ItEntry} {L : List ItEntry}
     (h : MergeR SA SB rev m (e :: L)) (n : Nat) :
     ∃ Ll Lr, Pre SA SB rev (MergeSt.nextLoop A B (n + 1) m) Ll Lr ∧
       Fixed cmp (MergeSt.nextLoop A B (n + 1) m).smallLeft Ll Lr ∧
